@@ -444,3 +444,11 @@ def merge_val(c, a, b):
         else:
             raise Unsupported("merge of sorts %s / %s" % (za.sort(), zb.sort()))
     return z3.If(c, za, zb)
+
+
+class SuperProxy:
+    """super() inside a method of class `cls`, bound to receiver `selfref`"""
+    __slots__ = ("selfref", "cls")
+
+    def __init__(self, selfref, cls):
+        self.selfref, self.cls = selfref, cls
